@@ -8,7 +8,12 @@ ALL = ['C%02d' % i for i in range(1, 21)]
 CLAIMED = {
  'C01': ('exploration', 'runtime monitoring: seeded-scheduler TLS sessions under ASan/UBSan with stream, parameter-agreement and independent record-decoder oracles; OpenSSL as interop peer',
          'Executes real client/server engines (ASan+UBSan build of /repo) over every (suite, version) pair with sampled buffer layouts/sizes, transport chunkings, write sizes and payload lengths; every session is judged by a position-coded stream oracle, parameter/export agreement, an independent OpenSSL-EVP record decoder keyed by an independently derived key block, and the C06 coherence monitor after every call; OpenSSL libssl plays each role for the 58 (suite,version) pairs it implements. Held-on-what-was-observed, not a proof.',
-         'Trusts OpenSSL 3.0 (EVP, TLS1-PRF, libssl) as independent reference; x86-64 host build with ESP8266-like config flags; products of the configuration space are sampled (seeded), 3DES and static-ECDH suites have no independent TLS peer here (covered BearSSL<->BearSSL plus the independent record decoder).'),
+         'Trusts OpenSSL 3.0 (EVP, TLS1-PRF, libssl) as independent reference; x86-64 host build with ESP8266-like config flags; products of the configuration space are sampled (seeded), 3DES and static-ECDH suites have no independent TLS peer here (covered BearSSL<->BearSSL plus the independent record decoder).'), 'C06': ('exploration', 'runtime monitoring: bounded exhaustive schedule enumeration over real engine contexts (snapshot/restore) with an invariant monitor after every API call',
+         'From every sampled handshake step and 10 data-phase states, every sequence of the 24 caller actions (buf/ack with 1 or all bytes, flush 0/1, close, renegotiate on either endpoint) up to depth 4 (quick) / 6 (thorough) is executed on the real engines; after each call the public-API coherence invariants (closed exclusive and permanent with first error kept, pointer/length/flag agreement, regions inside caller memory, SENDREC/SENDAPP and RECVREC/RECVAPP exclusion, some operation offered) and the position-coded stream oracle are checked. The same monitor also runs after every call of all other TLS checks.',
+         'Depth-bounded and start-state-sampled: finds only states within d calls of a sampled start state; hash de-duplication may only lose coverage; x86-64 ASan/UBSan build.'),
+ 'C18': ('exploration', 'runtime monitoring: differential oracle against OpenSSL i2d/d2i/PEM and br_x509_decoder under ASan/UBSan, generated keys and PEM texts',
+         'Encoders, br_skey_decoder, br_pkey_decoder, br_pem_encode and br_pem_decoder are driven with fixture and synthetic keys and every PEM payload length 0..2000 x flags; outputs are compared byte for byte with OpenSSL and with the certificate decoder; malformed armour must raise an error without spurious data. Three documented-vs-actual discrepancies in T0 bytecode are listed in known_findings.json.',
+         'Trusts OpenSSL 3.0 libcrypto encoders as reference; sampled keys; T0 bytecode cannot be regenerated here (no mono).'),
 }
 
 ENGINES = []
